@@ -23,7 +23,7 @@ def run(ctx):
             'product) x 3 numeric types x all integer vectors of {-6..6}^D, near-degenerate vectors (1, 2^-k, ..) for every k up to the '
             'mantissa width, each at every %s binade of the range where the squared length neither overflows nor underflows, plus zero '
             'vectors of both signs: length within 4 eps of 1 (norm in __float128), parallel and same sense as the input, bitwise '
-            'unchanged by power-of-two rescaling and <= 2 ulp by x3 / x0.7, all paths bitwise identical, zero -> exactly +0. Every '
+            'unchanged by power-of-two rescaling and <= 2 ulp by x3 / x0.7, all paths agree to 2 ulp, zero -> exactly +0. Every '
             'vector-valued quantity type found by shape (2-D and 3-D): Magnitude() has the scalar type of identical Dimensions() and the '
             'Euclidean norm (2 ulp), x()/y()/z() typed and bitwise, Magnitude()*Direction() and Q(magnitude, direction) rebuild q to 4 ulp '
             'of |q|. distinct_nontrivial = directions checked (each a distinct (path, input, binade))') % ('8th' if ctx.tier == 'thorough' else '32nd')
